@@ -68,10 +68,17 @@ func init() {
 		maxVariants := r.argInt("max", 1<<30)
 		var variants []History
 		id := 0
-		for b := 0; b < r.n && len(variants) < maxVariants; b++ {
+		scen := userScenarios(r.seed)
+		for b := 0; b < r.n+len(scen) && len(variants) < maxVariants; b++ {
 			seed := r.seed*1_000_003 + uint64(b) + 500_000
 			g := rand.New(rand.NewPCG(seed, 0xfa017))
-			base := genHistory(g, b, seed, "faultenum-base")
+			var base History
+			if b < len(scen) {
+				base = scen[b]
+				base.ID, base.Seed = b, seed
+			} else {
+				base = genHistory(g, b, seed, "faultenum-base")
+			}
 			// no restarts in fault histories (keeps the variants short)
 			if len(base.Steps) > 18 {
 				base.Steps = base.Steps[:18]
@@ -215,4 +222,43 @@ func jarBefore(rec histRec, s int, c int) *Key {
 		}
 	}
 	return nil
+}
+
+
+// userScenarios: fixed base histories in which a user is logged into several
+// sessions and a user-wide call (LogOut(userID), RefreshUser, exclusive LogIn)
+// then works through them - with the sessions cached, evicted, and partly
+// deleted - so that every fault placement inside those loops is enumerated.
+func userScenarios(seed uint64) []History {
+	a := func(c int) Addr { return Addr{V4: true, A: 10, B: c, C: 1, D: 1, P: 5000 + c} }
+	login := func(c int, excl bool) Hop {
+		return Hop{Kind: "req", Client: c, Create: true, Addr: a(c), Agent: 1, Script: []Sop{{Op: "login", U: 1, Ver: 1, Excl: excl}, {Op: "set", K: 0, V: 10 + c}}}
+	}
+	var out []History
+	for i, mc := range []int{100, 1, 0, -1} {
+		cfg := Cfg{Expiry: forever, IDExpiry: forever, Grace: 300 * sec, CacheExpiry: forever, MaxCache: mc, AcceptIP: 1, AcceptUA: true, JSON: i%2 == 1}
+		var last Hop
+		switch i % 3 {
+		case 0:
+			last = Hop{Kind: "logoutuser", U: 1}
+		case 1:
+			last = Hop{Kind: "refreshuser", U: 1, Ver: 5}
+		default:
+			last = login(3, true)
+		}
+		steps := []Hop{login(0, false), {Kind: "wait", D: sec}, login(1, false), {Kind: "wait", D: sec}, login(2, false), {Kind: "wait", D: sec}}
+		if i >= 2 {
+			steps = append(steps, Hop{Kind: "purge"})
+		}
+		if i == 3 {
+			// one listed session is destroyed before the user-wide call
+			steps = append(steps, Hop{Kind: "req", Client: 1, Addr: a(1), Agent: 1, Script: []Sop{{Op: "destroy"}}})
+		}
+		steps = append(steps, last)
+		for c := 0; c < 3; c++ {
+			steps = append(steps, Hop{Kind: "req", Client: c, Addr: a(c), Agent: 1, Script: []Sop{{Op: "get", K: 0}}})
+		}
+		out = append(out, History{Family: "faultenum-scenario", Cfg: cfg, Tmpl: int(seed%7) + i, Steps: steps})
+	}
+	return out
 }
